@@ -5,3 +5,4 @@ import CC.Thm.C05
 #print axioms CC.Thm.C05.output_loop_is_output
 #print axioms CC.Thm.C05.source_kernels_match
 #print axioms CC.Thm.C05.source_glue_match
+#print axioms CC.Thm.C05.source_block_match
